@@ -106,6 +106,17 @@ def atom_desc(a: dict) -> dict:
             seq.append(body[0])
         else:
             mf[a["name"]] = body
+    elif k == "authblocks":
+        n = a["n"]
+        idx = list(range(n))
+        if a["names"] == "descending":
+            idx.reverse()
+        elif a["names"] == "rotated":
+            idx = idx[n // 2:] + idx[:n // 2]
+        for pos, i in enumerate(idx):   # the key carries number i, the block's content carries its POSITION (key id = 100 + pos)
+            d["SUIT_Envelope_Tagged"]["suit-authentication-wrapper"][f"SuitAuthentication{i}"] = {"CoseSign1Tagged": {
+                "protected": {"suit-cose-algorithm-id": "cose-alg-es-256", "suit-cose-key-id": 100 + pos}, "unprotected": {},
+                "payload": None, "signature": ("%02x" % (pos + 1)) * 64}}
     elif k == "cidpart":
         mf["suit-common"]["suit-components"] = [["M", a["text"], 7], [a["text"]]]
         mf["suit-manifest-component-id"] = ["I", a["text"]]
@@ -225,7 +236,11 @@ def rnd_desc(rng):
     e["suit-authentication-wrapper"]["SuitDigest"]["suit-digest-algorithm-id"] = rng.choice(ALGS)
     if rng.random() < 0.3:
         e["suit-authentication-wrapper"]["SuitDigest"]["suit-digest-bytes"] = "deadbeef"
-    for i in range(rng.choice([0, 0, 1, 2, 3, 4])):
+    nb = rng.choice([0, 0, 1, 2, 3, 4, 11])
+    order = list(range(nb))
+    if rng.random() < 0.3:
+        rng.shuffle(order)   # the keys' numbering is free: the order of the description is the order on the wire
+    for i in order:
         e["suit-authentication-wrapper"][f"SuitAuthentication{i}"] = {"CoseSign1Tagged": {
             "protected": rnd_header(rng, SIGN_ALGS), "unprotected": rnd_header(rng, SIGN_ALGS) if rng.random() < 0.3 else {},
             "payload": None, "signature": "5a" * rng.choice([64, 96, 132])}}
